@@ -91,6 +91,21 @@ class Pair:
         ts._channel_handler_table = dict(Transport._channel_handler_table)
         for t in (99, 100):
             ts._channel_handler_table[t] = lambda chan, m: None
+        # channel requests the client makes while `self.manual` is set are NOT answered by the server transport: the
+        # harness answers them by hand (SUCCESS / FAILURE / CLOSE / EOF+CLOSE / nothing)
+        self.manual = False
+        real_req = Transport._channel_handler_table[98]
+        self.swallowed = 0
+
+        def on_request(chan, m):
+            if self.manual:
+                with self.cv:
+                    self.swallowed += 1
+                    self.cv.notify_all()
+                return None
+            return real_req(chan, m)
+
+        ts._channel_handler_table[98] = on_request
         for t in (81, 82, 91, 92):
             self._orig = ts._handler_table.get(t)
         self._swallow = {t: ts._handler_table[t] for t in (91, 92)}
@@ -117,7 +132,9 @@ class Pair:
                     cv.notify_all()
 
         def send_message(data):
-            self.sent.append(data.asbytes())
+            with cv:
+                self.sent.append(data.asbytes())
+                cv.notify_all()
             return orig_send(data)
 
         def run():
@@ -136,14 +153,70 @@ class Pair:
             self.chan = self.tc.open_session(timeout=WAIT)
         return self.chan
 
+    def answered_request(self, call, answer):
+        """run a blocking client-side channel request (`call(channel)`) and answer it by hand from the server side:
+        answer = 'success' | 'failure' | 'close' | 'eof-close'.  Returns 'ok' if the call returned, 'denied' if it
+        raised.  What was put on the wire for the request is exactly the hand-built answer."""
+        import threading as th
+
+        ch = self.session()
+        cid = ch.get_id()
+        out = {}
+        n0 = len(self.sent)
+        sw0 = self.swallowed
+        self.manual = True
+
+        def run():
+            try:
+                call(ch)
+                out["r"] = "ok"
+            except Exception as e:
+                out["r"] = "denied"
+                out["exc"] = type(e).__name__
+
+        t = th.Thread(target=run, daemon=True)
+        t.start()
+        with self.cv:
+            ok = self.cv.wait_for(lambda: any(m[:1] == b"\x62" for m in self.sent[n0:]) or "r" in out, WAIT)
+        if not ok:
+            raise InfraError("C18: the client did not send its channel request")
+        try:
+            if "r" not in out:
+                if answer == "success":
+                    self.push(99, S(cid))
+                elif answer == "failure":
+                    self.push(100, S(cid))
+                elif answer == "close":
+                    self.push(97, S(cid))
+                elif answer == "eof-close":
+                    self.push(96, S(cid))
+                    self.push(97, S(cid))
+                else:
+                    raise ValueError(answer)
+            t.join(WAIT)
+            if t.is_alive():
+                raise InfraError("C18: the client's channel request did not return after the answer %r" % answer)
+            # leave manual mode only after the server transport has consumed (and ignored) the client's request,
+            # otherwise it would answer it itself a moment later
+            if any(m[:1] == b"\x62" for m in self.sent[n0:]):
+                with self.cv:
+                    if not self.cv.wait_for(lambda: self.swallowed > sw0 or not self.ts.active, WAIT):
+                        raise InfraError("C18: the server side never saw the client's channel request")
+        finally:
+            self.manual = False
+        return out["r"]
+
     # -- client actions
     def action(self, a):
         from paramiko.ssh_exception import SSHException
 
         try:
             if a.startswith("x11:"):
-                self.grant = a.endswith("1")
-                self.session().request_x11()
+                ans = {"1": "success", "0": "failure", "c": "close", "e": "eof-close"}[a[4:]]
+                return self.answered_request(lambda ch: ch.request_x11(), ans)
+            elif a.startswith("pty:"):
+                ans = {"1": "success", "0": "failure", "c": "close", "e": "eof-close"}[a[4:]]
+                return self.answered_request(lambda ch: ch.get_pty(), ans)
             elif a == "agent":
                 self.session().request_forward_agent(None)
             elif a.startswith("fwd:") or a.startswith("fwdz:"):
